@@ -4,6 +4,7 @@ import (
 	"fmt"
 	"go/token"
 	"go/types"
+	"math/big"
 	"strings"
 
 	"golang.org/x/tools/go/ssa"
@@ -254,6 +255,22 @@ func runC06(p *Prog, r *Report) {
 	} else {
 		r.Pass("C06.R3", sn+": body rewound before every retry", p.InstrPos(b.handler), "no retry loop")
 	}
+	// the thing that is rewound and replayed is the buffer itself: the body variable is only ever assigned the
+	// result of multibuf.New — a wrapper put around it can turn Seek(0,0) into something else than a rewind
+	if al, ok := b.bodyCell.(*ssa.Alloc); ok {
+		var other *ssa.Store
+		for _, ref := range *al.Referrers() {
+			if st, ok := ref.(*ssa.Store); ok && st.Addr == ssa.Value(al) && !isNilConst(st.Val) && !resultValue(b.newBody, 0)(stripConv(st.Val)) {
+				other = st
+			}
+		}
+		var at ssa.Instruction
+		if other != nil {
+			at = other
+		}
+		r.Check(other == nil, "C06.R3", sn+": the replayed body is the buffer returned by multibuf.New", p.InstrPos(b.newBody), "the body variable is assigned from multibuf.New only",
+			"the buffered body is replaced by another value"+atInstr(p, at)+": the Seek(0,0) before a retry and the reads of the next attempt go through it, and need no longer rewind / replay the buffered bytes")
+	}
 	// ---- R4 ----
 	okNew := false
 	if len(b.newBody.Common().Args) > 0 {
@@ -450,6 +467,7 @@ func runC07(p *Prog, r *Report) {
 		return
 	}
 	r.Fn(FName(b.serve))
+	c07ExpectBody(p, r, b)
 	sn := "buffer.(*Buffer).ServeHTTP"
 	fn := b.serve
 	inLoop := loopBlocks(b.handler.Block())
@@ -702,12 +720,18 @@ func runC07(p *Prog, r *Report) {
 		ok := false
 		for _, ifi := range ifs(fn) {
 			cmp, okc := CanonCmp(BuildExpr(p, ifi.Cond, nil))
-			if !okc || cmp.Op != ">" {
+			if !okc {
 				continue
 			}
-			for f := range written {
-				if strings.HasSuffix(cmp.D.String(), "."+f) && OnlyViaEdge(fn, rc, Edge{ifi.Block(), 0}) {
-					ok = true
+			// `written > 0` on the true edge, or its negation (`written <= 0`) on the false edge
+			for k, c := range []LinCmp{cmp.Strict(), cmp.Negate().Strict()} {
+				if c.Op != ">" {
+					continue
+				}
+				for f := range written {
+					if strings.HasSuffix(c.D.String(), "."+f) && OnlyViaEdge(fn, rc, Edge{ifi.Block(), k}) {
+						ok = true
+					}
 				}
 			}
 		}
@@ -1020,6 +1044,53 @@ func c07Bound(p *Prog, r *Report, b *bufInfo, inLoop map[*ssa.BasicBlock]bool) {
 					}
 				}
 			}
+			// and a retry the expression asked for is carried out: from the `true` edge of the expression the only
+			// exits before the next invocation are failures of the rewind (the error edge of body.Seek)
+			var seeks []ssa.Instruction
+			for _, c := range Calls(fn) {
+				if cc, ok := IsInvoke(c, "Seek"); ok && b.isBody(cc.Value) {
+					seeks = append(seeks, c)
+				}
+			}
+			for _, t := range BoolTests(fn, func(v ssa.Value) bool {
+				for _, c := range predCalls {
+					if v == c {
+						return true
+					}
+				}
+				return false
+			}) {
+				onTrue := func(e Edge) bool { return !(e.B == t.False.B && e.K == t.False.K) }
+				var bad *ssa.Return
+				for in := range Reach(fn, t.If, isOnlyInstr(b.handler), onTrue) {
+					ret, ok := in.(*ssa.Return)
+					if !ok {
+						continue
+					}
+					viaSeekErr := false
+					for _, sk := range seeks {
+						if call, ok := sk.(*ssa.Call); ok {
+							for _, nt := range NilTests(fn, resultValue(call, 1)) {
+								if OnlyViaEdgeFrom(fn, t.If, ret, nt.NonNil) {
+									viaSeekErr = true
+								}
+							}
+						}
+					}
+					// ... or of the allocation of the next attempt's response buffer
+					for _, nt := range NilTests(fn, resultValue(b.newW, 1)) {
+						if OnlyViaEdgeFrom(fn, t.If, ret, nt.NonNil) {
+							viaSeekErr = true
+						}
+					}
+					if !viaSeekErr {
+						bad = ret
+					}
+				}
+				r.Paths++
+				r.Check(bad == nil, "C07.R5", sn+": a retry the expression asks for is made", p.InstrPos(t.If), "from the expression's true edge every exit before the next invocation is the failure edge of the body rewind or of the allocation of the next response buffer",
+					"after the retry expression evaluated to true the routine can return without invoking the handler again"+posOf(p, bad)+" for another reason than a failed rewind: the client gets an error response (or the discarded attempt) instead of the retry")
+			}
 			r.Paths++
 			r.Check(!other, "C07.R5", sn+": an attempt is delivered only when the retry expression says so (or none / bound exhausted)", p.InstrPos(relay),
 				"the relay is unreachable from the handler once the edges predicate == nil, counter > K and predicate(...) == false are deleted",
@@ -1108,6 +1179,8 @@ func c07FunctionMap(p *Prog, r *Report, funcs map[string]*ssa.Function, pkg stri
 // ---------------- C15 ----------------
 
 func runC15(p *Prog, r *Report) {
+	// R7: the error handler that answers 413 / the error status is non-nil whatever options were given
+	checkErrHandlerDefaulted(p, r, "C15.R7", map[string]bool{"buffer": true})
 	// R6: nothing reads the request body before the size-limited reader does: the verbose request dump only reads header fields (shared with C06.R6)
 	checkDumpReadOnly(p, r, "C15.R6")
 	// R5: the size-limited reader is applied to the request's own body, whatever the method or declared length (shared with C06.R4)
@@ -1346,11 +1419,7 @@ func runC15(p *Prog, r *Report) {
 		for _, t := range NilTests(fn, resultValue(call, 1)) {
 			isDC := func(in ssa.Instruction) bool {
 				d, ok := in.(*ssa.Defer)
-				if !ok {
-					return false
-				}
-				dc := d.Common()
-				return dc.IsInvoke() && dc.Method.Name() == "Close" && resultValue(call, 0)(dc.Value)
+				return ok && deferInvokes(d, "Close", resultValue(call, 0))
 			}
 			// on the success edge every path to any later call passes the defer first
 			okD = true
@@ -1396,28 +1465,28 @@ func runC15(p *Prog, r *Report) {
 			}
 		}
 		if closes && !ReachableAvoiding(fn, b.newBody, b.handler, isOnly(d), nil) {
-			// and no return between New's success and the defer
-			okBody = true
-			for in := range Reach(fn, b.newBody, isOnly(d), nil) {
-				if ret, ok := in.(*ssa.Return); ok {
-					// returns on New's error edge are fine (nothing to close / body nil)
-					errEdge := false
-					for _, t := range NilTests(fn, resultValue(b.newBody, 1)) {
-						if OnlyViaEdgeFrom(fn, b.newBody, ret, t.NonNil) {
-							errEdge = true
-						}
-					}
-					for _, t := range NilTests(fn, b.isBody) {
-						if OnlyViaEdgeFrom(fn, b.newBody, ret, t.Nil) {
-							errEdge = true
-						}
-					}
-					if !errEdge {
-						// `err != nil || body == nil` is two branches: accept returns dominated by either
-						okBody = okBody && false
+			// and no return between New's success and the defer: with the failure edges of New deleted (err != nil,
+			// body == nil — there is nothing to close on them) no return is reachable before the defer is registered
+			var failEdges []Edge
+			for _, t := range NilTests(fn, resultValue(b.newBody, 1)) {
+				failEdges = append(failEdges, t.NonNil)
+			}
+			for _, t := range NilTests(fn, b.isBody) {
+				failEdges = append(failEdges, t.Nil)
+			}
+			succ := func(e Edge) bool {
+				for _, f := range failEdges {
+					if f.B == e.B && f.K == e.K {
+						return false
 					}
 				}
+				return true
 			}
+			ret := ReturnReachableAvoiding(fn, b.newBody, isOnly(d), succ)
+			okBody = true
+			r.Paths++
+			r.Check(ret == nil, "C15.R4", sn+": nothing returns between buffering the body and registering its release", p.InstrPos(d), "with New's failure edges deleted no return is reachable before the defer",
+				"the routine can return after the request body was buffered (possibly spilled to a file) and before the deferred Close is registered"+posOf(p, ret)+": that request's temporary file is never removed")
 		}
 	}
 	_ = okBody
@@ -1556,6 +1625,7 @@ func c15ReaderNeedsOpenFile(p *Prog) bool {
 func mutantsC06() []Mutant {
 	f := "buffer/buffer.go"
 	return []Mutant{
+		{Name: "body-wrapped-after-buffering", File: "buffer/buffer.go", Old: "\t// Set request body to buffered reader", New: "\tbody = struct{ multibuf.MultiReader }{body}\n\t// Set request body to buffered reader", Expect: "C06.R3"},
 		{Name: "copy-from-previous-copy", File: f, Old: "\t\toutReq = b.copyRequest(req, body, totalSize)\n", New: "\t\toutReq = b.copyRequest(outReq, body, totalSize)\n", Expect: "C06.R1"},
 		{Name: "no-seek", File: f, Old: "\t\tif body != nil {\n\t\t\tif _, err := body.Seek(0, 0); err != nil {\n\t\t\t\tb.log.Error(\"vulcand/oxy/buffer: failed to rewind response body, err: %v\", err)\n\t\t\t\tb.errHandler.ServeHTTP(w, req, err)\n\t\t\t\treturn\n\t\t\t}\n\t\t}\n", New: "", Expect: "C06.R3"},
 		{Name: "header-shared", File: f, Old: "\to.Header = make(http.Header)\n\tutils.CopyHeaders(o.Header, req.Header)\n", New: "\to.Header = req.Header\n", Expect: "C06.R2"},
@@ -1574,6 +1644,8 @@ func mutantsC06() []Mutant {
 func mutantsC07() []Mutant {
 	f, t := "buffer/buffer.go", "buffer/threshold.go"
 	return []Mutant{
+		{Name: "retry-abandoned-when-context-done", File: "buffer/buffer.go", Old: "\t\tattempt++\n", New: "\t\tattempt++\n\t\tif req.Context().Err() != nil {\n\t\t\tb.errHandler.ServeHTTP(w, req, req.Context().Err())\n\t\t\treturn\n\t\t}\n", Expect: "C07.R5"},
+		{Name: "expectbody-205-for-204", File: "buffer/buffer.go", Old: "b.code == 204", New: "b.code == 205", Expect: "C07.R4"},
 		{Name: "bound-100", File: f, Old: "\tDefaultMaxRetryAttempts = 10\n", New: "\tDefaultMaxRetryAttempts = 100\n", Expect: "C07.R5"},
 		{Name: "no-attempt-clause", File: f, Old: "(b.retryPredicate == nil || attempt > DefaultMaxRetryAttempts) ||", New: "(b.retryPredicate == nil) ||", Expect: "C07.R5"},
 		{Name: "reader-hoisted", File: f, Old: "\tattempt := 1\n\tfor {", New: "\tattempt := 1\n\tvar reader multibuf.MultiReader\n\tfor {", More: []Edit{{f, "\t\tvar reader multibuf.MultiReader\n\t\tif bw.expectBody", "\t\tif bw.expectBody"}}, Expect: "C07.R1"},
@@ -1600,6 +1672,8 @@ func mutantsC07() []Mutant {
 func mutantsC15() []Mutant {
 	f := "buffer/buffer.go"
 	return []Mutant{
+		{Name: "return-between-buffering-and-defer", File: "buffer/buffer.go", Old: "\tif err != nil || body == nil {\n", New: "\tif req.Context().Err() != nil {\n\t\tb.errHandler.ServeHTTP(w, req, req.Context().Err())\n\t\treturn\n\t}\n\tif err != nil || body == nil {\n", Expect: "C15.R4"},
+		{Name: "buffer-errhandler-not-defaulted", File: "buffer/buffer.go", Old: "\tif strm.errHandler == nil {\n\t\tstrm.errHandler = errHandler\n\t}\n", New: "", Expect: "C15.R7"},
 		{Name: "skip-checklimit", File: f, Old: "\tif err := b.checkLimit(req); err != nil {\n\t\tb.log.Error(\"vulcand/oxy/buffer: request body over limit, err: %v\", err)\n\t\tb.errHandler.ServeHTTP(w, req, err)\n\t\treturn\n\t}\n", New: "", Expect: "C15.R1"},
 		{Name: "ignore-writeerror", File: f, Old: "\t\tif bw.writeError != nil {\n\t\t\tb.log.Error(\"vulcand/oxy/buffer: failed to copy response, err: %v\", bw.writeError)\n\t\t\tb.errHandler.ServeHTTP(w, req, bw.writeError)\n\t\t\treturn\n\t\t}\n", New: "", Expect: "C15.R2"},
 		{Name: "defer-after-handler", File: f, Old: "\t\tdefer bw.Close()\n\n\t\tb.next.ServeHTTP(bw, outReq)\n", New: "\t\tb.next.ServeHTTP(bw, outReq)\n\t\tdefer bw.Close()\n", Expect: "C15.R3"},
@@ -1964,4 +2038,135 @@ func checkSingleBodySink(p *Prog, r *Report, rule string, b *bufInfo) {
 	}
 	r.Check(okAll && len(sinks) > 0, rule, "buffer.bufferWriter: the response buffer is fed only by Write", pos, "only Write writes into the WriterOnce",
 		fmt.Sprintf("the response buffer is also fed by %v: a handler using io.WriteString / io.Copy reaches that method instead of Write, the byte count and the write error are not recorded (empty body delivered, size limit not enforced)", sinks))
+}
+
+// evalLinAt evaluates a comparison that mentions only `atom` (and constants) for atom = v.
+func evalLinAt(c LinCmp, atom string, v int64) (val bool, ok bool) {
+	q, okq := c.D.Q.isConst()
+	if !okq || q.Sign() <= 0 {
+		return false, false
+	}
+	sum := new(big.Rat)
+	for m, coef := range c.D.P {
+		switch m {
+		case "":
+			sum.Add(sum, coef)
+		case atom:
+			sum.Add(sum, new(big.Rat).Mul(coef, big.NewRat(v, 1)))
+		default:
+			return false, false
+		}
+	}
+	switch c.Op {
+	case ">=":
+		return sum.Sign() >= 0, true
+	case ">":
+		return sum.Sign() > 0, true
+	case "==":
+		return sum.Sign() == 0, true
+	case "!=":
+		return sum.Sign() != 0, true
+	}
+	return false, false
+}
+
+// boolReturnsAt: the constant results a loop-free bool function can return when the comparisons that mention
+// only `atom` are decided for atom = v and every other branch may go either way.
+func boolReturnsAt(p *Prog, fn *ssa.Function, atom string, v int64) (canTrue, canFalse, okAll bool) {
+	okAll = true
+	seen := map[[2]int]bool{}
+	var walk func(b, prev *ssa.BasicBlock, depth int)
+	walk = func(b, prev *ssa.BasicBlock, depth int) {
+		pi := -1
+		if prev != nil {
+			pi = prev.Index
+		}
+		if depth > 64 || seen[[2]int{b.Index, pi}] {
+			return
+		}
+		seen[[2]int{b.Index, pi}] = true
+		switch t := b.Instrs[len(b.Instrs)-1].(type) {
+		case *ssa.Return:
+			rv := t.Results[0]
+			if ph, ok := rv.(*ssa.Phi); ok && ph.Block() == b && prev != nil {
+				for i, pr := range b.Preds {
+					if pr == prev {
+						rv = ph.Edges[i]
+					}
+				}
+			}
+			if k, ok := constBool(rv); ok {
+				if k {
+					canTrue = true
+				} else {
+					canFalse = true
+				}
+			} else {
+				canTrue, canFalse = true, true // a computed result: either
+			}
+		case *ssa.If:
+			if cmp, ok := CanonCmp(BuildExpr(p, t.Cond, nil)); ok && cmp.Mentions(atom) {
+				if val, ok := evalLinAt(cmp, atom, v); ok {
+					if val {
+						walk(b.Succs[0], b, depth+1)
+					} else {
+						walk(b.Succs[1], b, depth+1)
+					}
+					return
+				}
+				okAll = false
+			}
+			walk(b.Succs[0], b, depth+1)
+			walk(b.Succs[1], b, depth+1)
+		case *ssa.Jump:
+			walk(b.Succs[0], b, depth+1)
+		default:
+			okAll = false
+		}
+	}
+	if len(fn.Blocks) > 0 {
+		walk(fn.Blocks[0], nil, 0)
+	}
+	return
+}
+
+// c07ExpectBody (R4): which statuses carry no body is fixed by the protocol (1xx, 204, 304): for those the
+// recorder's body test answers false on every path, and for every other status 100..599 it can answer true —
+// a status dropped from or added to that set loses a delivered body or announces one that is not there.
+func c07ExpectBody(p *Prog, r *Report, b *bufInfo) {
+	var fn *ssa.Function
+	for _, m := range p.Methods(b.rec) {
+		if m.Signature.Results().Len() == 1 && isPlainBasic(types.Bool)(m.Signature.Results().At(0).Type()) && m.Signature.Params().Len() == 1 && typeIs(m.Signature.Params().At(0).Type(), pkgHTTP, "Request") {
+			fn = m
+		}
+	}
+	if fn == nil {
+		return // no such routine: the relay does not depend on a body test
+	}
+	r.Fn(FName(fn))
+	atom := "fld(p0)." + recRole(p, "code")
+	var wrong []string
+	undecided := false
+	for v := int64(100); v <= 599; v++ {
+		noBody := v < 200 || v == 204 || v == 304
+		ct, cf, ok := boolReturnsAt(p, fn, atom, v)
+		if !ok {
+			undecided = true
+			break
+		}
+		switch {
+		case noBody && ct:
+			wrong = append(wrong, fmt.Sprintf("%d may be given a body", v))
+		case !noBody && !ct:
+			wrong = append(wrong, fmt.Sprintf("%d never gets its body", v))
+		}
+		_ = cf
+	}
+	if undecided {
+		r.Note("C07.R4: " + FName(fn) + " compares the status in a form that is not a comparison with constants (not decided)")
+		return
+	}
+	r.Paths += 500
+	r.Check(len(wrong) == 0, "C07.R4", "buffer.(*bufferWriter)."+fn.Name()+": bodiless statuses are exactly 1xx, 204, 304", p.FuncPos(fn), "decided for every status 100..599 from the function's comparisons",
+		"the body test disagrees with the protocol: "+truncate(strings.Join(wrong, "; "), 160)+" — the final attempt's body is dropped for such a status (or a body is announced that the handler never wrote)")
 }
